@@ -2,8 +2,8 @@ SPECIFICATION Spec
 CONSTANTS
   PlainNames <- MC_Names2
   HostileNames <- MC_NoHostile
-  MaxOps = 4
-  MaxIno = 8
+  MaxOps = 3
+  MaxIno = 10
   Cfg <- MC_Cfg_seal
   TaintOn = TRUE
   Mode = "c18"
